@@ -1,5 +1,6 @@
 import sys
 import os
+import collections
 
 from ..helpers.extended_json import ejson
 
@@ -29,7 +30,10 @@ def stream(file=sys.stdout):
         write(package.pkg.descriptor)
         yield package.pkg
         for res in package:
-            yield res_writer(res)
+            writer = res_writer(res)
+            yield writer
+            # rows a later step did not ask for are part of the stream all the same
+            collections.deque(writer, maxlen=0)
             file.write('\n')
         file.close()
         if filename:
